@@ -611,6 +611,8 @@ func (k Keeper) WithdrawAppReserveFundsFn(ctx sdk.Context, appId, assetId uint64
 				return err
 			}
 		}
+	} else {
+		return types.ErrorInvalidAppOrAssetData
 	}
 	appReserveFunds.TokenQuantity.Amount = appReserveFunds.TokenQuantity.Amount.Sub(tokenQuantity.Amount)
 	k.SetAppReserveFunds(ctx, appReserveFunds)
